@@ -5,7 +5,7 @@ d="$1"; id="$2"; wt="/tmp/seed_$id"
 src="/verif/seeded/$d"
 git -C /repo worktree remove --force "$wt" 2>/dev/null
 git -C /repo worktree add -q "$wt" HEAD || exit 2
-cp "$src/demo_seed.py" "$wt/" 2>/dev/null
+for f in "$src"/*; do case "$(basename "$f")" in patch.diff|meta.json|verify.log) ;; *) cp -r "$f" "$wt/";; esac; done
 run_suite() { (cd "$wt" && /venv/bin/python -m pytest -q -p no:cacheprovider --timeout=900 --continue-on-collection-errors -rA mpf/tests 2>&1 | grep -E "^(PASSED|FAILED|ERROR|SKIPPED)" | sort); }
 {
 echo "== $d ($id) =="
